@@ -133,7 +133,7 @@ func DefaultChain(m clusters.Manager) ChainFunc {
 		handler = gatewayfilters.WithUpstreamInfo(handler, m, c.Serializer)
 		handler = gatewayfilters.WithExtraRequestInfo(handler, &gatewayrequest.ExtraRequestInfoFactory{LongRunningFunc: c.LongRunningFunc}, c.Serializer)
 		handler = gatewayfilters.WithTerminationMetrics(handler)
-		handler = gatewayfilters.WithRequestInfo(handler, c.RequestInfoResolver, c.Serializer)
+		handler = withRequestInfo(handler, c) // requestinfo.go
 		handler = genericapifilters.WithCacheControl(handler)
 		handler = gatewayfilters.WithNoLoggingPanicRecovery(handler)
 		return handler
